@@ -800,7 +800,7 @@ func runC06(w *World, r *Report) {
 			})
 		}
 		if n < 2 {
-			undecidedf("C06.bundled-state-serializable: only %d WithGenLocalState calls found in flow/", n)
+			r.Deferred = append(r.Deferred, fmt.Sprintf("C06.bundled-state-serializable: only %d WithGenLocalState calls found in flow/", n))
 		}
 	}
 
@@ -949,7 +949,7 @@ func runC06(w *World, r *Report) {
 			r.Check(lf == nil, "C06.interrupt-lists-snapshotted", "graph.compile: runner."+fw.field.Name()+" is a copy", fw.in.Pos(), "not the option's slice itself", "the runner keeps the caller's slice (the option stores it as it came, compile hands it on as it is): editing or reusing that slice after Compile removes the interrupt point — the interrupt-before node runs without any interrupt, the interrupt-after node's successor starts; sequential, no race needed")
 		}
 		if n < 2 {
-			undecidedf("C06.interrupt-lists-snapshotted: only %d stores of the runner's interrupt lists in graph.compile", n)
+			r.Deferred = append(r.Deferred, fmt.Sprintf("C06.interrupt-lists-snapshotted: only %d stores of the runner's interrupt lists in graph.compile", n))
 		}
 	}
 
